@@ -14,7 +14,7 @@ LEVEL = 'exploration'
 ASSUMPTIONS = [
     'point alphabet: grid {0,1,2}^d (d<=4), {-inf,1,+inf}^2, {0,1,1+1e-12}^2; ordered sequences (order matters to the divide-and-conquer and sharded routines)',
     'jax routines are run with jax_enable_x64=True, as the service configures it (PythiaServicer); NaN is only enumerated at study level',
-    'GetBestTrials: safety metrics are not enumerated',
+    'safety metrics: SafetyChecker on all reading combinations of 1-2 safety metrics, and GetBestTrials with one safety metric (unsafe = beyond the threshold or NaN -> worst objective values; no reading = safe, as documented)',
 ]
 
 
@@ -261,6 +261,92 @@ def service_shard(task):
   return {'n': n, 'nontrivial': nontriv, 'violations': list(vios.values())}
 
 
+def safety_shard(task):
+  """Safety metrics: (a) SafetyChecker on every combination of readings for 1-2 safety metrics, (b) GetBestTrials on every history
+  of <= 3 (4) completed trials with an objective (two objectives) and a safety reading each. An unsafe trial (reading beyond the
+  threshold, or not a number) is treated as having the worst objective values; a trial that reports no reading is safe."""
+  import math
+  from vizier import pythia
+  from vizier import pyvizier as vz
+  from vizier._src.pyvizier.multimetric import safety
+  vios, n, nontriv = {}, 0, 0
+  nan, inf = float('nan'), float('inf')
+  READ = [None, -1.0, 0.0, 0.5, 1.0, 2.0, nan, inf, -inf]
+
+  def safe(goal, thr, v):
+    if v is None:
+      return True
+    if math.isnan(v):
+      return False
+    return v >= thr if goal == 'MAXIMIZE' else v <= thr
+  # (a)
+  for cfgs in itertools.chain(itertools.product(itertools.product(['MAXIMIZE', 'MINIMIZE'], [0.0, 1.0]), repeat=1),
+                              itertools.product(itertools.product(['MAXIMIZE', 'MINIMIZE'], [0.0, 1.0]), repeat=2)):
+    mc = vz.MetricsConfig([vz.MetricInformation('obj', goal=vz.ObjectiveMetricGoal.MAXIMIZE)] +
+                          [vz.MetricInformation('s%d' % i, goal=getattr(vz.ObjectiveMetricGoal, g), safety_threshold=thr) for i, (g, thr) in enumerate(cfgs)])
+    checker = safety.SafetyChecker(mc)
+    for reads in itertools.product(READ, repeat=len(cfgs)):
+      n += 1
+      nontriv += 1
+      m = vz.Measurement({'obj': 1.0})
+      try:
+        for i, v in enumerate(reads):
+          if v is not None:
+            m.metrics['s%d' % i] = v
+        got = list(checker.are_measurements_safe([m]))[0]
+      except Exception as e:  # pylint: disable=broad-except
+        got = 'raises %s' % type(e).__name__
+      want = all(safe(g, thr, v) for (g, thr), v in zip(cfgs, reads))
+      if got != want:
+        kinds = sorted({'nan' if (v is not None and math.isnan(v)) else 'missing' if v is None else 'number' for v in reads})
+        sig = 'C11|safety-check|%s' % '+'.join(kinds)
+        vios.setdefault(sig, {'sig': sig, 'desc': 'safety metrics %s, readings %s: are_measurements_safe says %s, expected %s' % (list(cfgs), list(reads), got, want), 'case': {'part': 'F'}})
+  # (b)
+  for goals in ((('m', 'MAXIMIZE'),), (('m', 'MINIMIZE'),), (('a', 'MAXIMIZE'), ('b', 'MINIMIZE'))):
+    for sgoal, thr in (('MAXIMIZE', 0.5), ('MINIMIZE', 0.5)):
+      prob = vz.ProblemStatement()
+      prob.search_space.root.add_float_param('x', 0.0, 1.0)
+      for nm_, g in goals:
+        prob.metric_information.append(vz.MetricInformation(nm_, goal=getattr(vz.ObjectiveMetricGoal, g)))
+      prob.metric_information.append(vz.MetricInformation('s', goal=getattr(vz.ObjectiveMetricGoal, sgoal), safety_threshold=thr))
+      ovals = [(0.0,), (1.0,), (2.0,)] if len(goals) == 1 else [(0.0, 0.0), (1.0, 0.0), (0.0, 1.0), (1.0, 1.0)]
+      alpha = [(ov, sr) for ov in ovals for sr in (None, 0.0, 1.0, nan)]
+      for k in range(1, task['kmax'] + 1):
+        for hist in itertools.product(alpha, repeat=k):
+          if k == task['kmax'] and len(goals) == 2 and hist[0][1] not in (None, nan) and not (isinstance(hist[0][1], float) and math.isnan(hist[0][1])):
+            continue   # the longest two-objective histories only with a missing / NaN first reading (keeps the product small)
+          n += 1
+          sup = pythia.InRamPolicySupporter(prob)
+          ts = []
+          for ov, sr in hist:
+            t = vz.Trial(parameters={'x': 0.5})
+            md = {g[0]: v for g, v in zip(goals, ov)}
+            if sr is not None:
+              md['s'] = sr
+            t.complete(vz.Measurement(md))
+            ts.append(t)
+          sup.AddTrials(ts)
+          # oracle: maximisation-oriented warped vectors, -inf everywhere when unsafe
+          vec = []
+          for ov, sr in hist:
+            if safe(sgoal, thr, sr):
+              vec.append(tuple(v if g[1] == 'MAXIMIZE' else -v for g, v in zip(goals, ov)))
+            else:
+              vec.append(tuple(-inf for _ in goals))
+          want = sorted(i for i, a in enumerate(vec) if not any(all(y >= x for x, y in zip(a, b)) and any(y > x for x, y in zip(a, b)) for b in vec))
+          if len(want) != len(hist):
+            nontriv += 1
+          try:
+            got = sorted(t.id - 1 for t in sup.GetBestTrials(count=None))
+          except Exception as e:  # pylint: disable=broad-except
+            got = 'raises %r' % e
+          if got != want:
+            kinds = sorted({'nan' if (sr is not None and math.isnan(sr)) else 'missing' if sr is None else ('safe' if safe(sgoal, thr, sr) else 'unsafe') for _, sr in hist})
+            sig = 'C11|best-trials-with-safety|%d-objective|%s' % (len(goals), '+'.join(kinds))
+            vios.setdefault(sig, {'sig': sig, 'desc': 'goals %s safety (%s, threshold %s) history %s: GetBestTrials returns %s, expected %s' % (goals, sgoal, thr, list(hist), got, want), 'case': {'part': 'F'}})
+  return {'n': n, 'nontrivial': nontriv, 'violations': list(vios.values())}
+
+
 def best_shard(task):
   """InRamPolicySupporter.GetBestTrials on the same histories (count in {None,1,2})."""
   from vizier import pythia
@@ -367,6 +453,7 @@ def run(ctx):
         tasks.append(('best_shard', {'goals': goals, 'kmax': 3 if q else 4, 'first': [f[0], list(f[1]) if f[1] is not None else None], 'quick': q}))
   if q:
     tasks.append(('service_shard', {'goals': GOALS[2], 'kmax': 2, 'first': None, 'quick': True, 'backends': ['sqlmem']}))
+  tasks.append(('safety_shard', {'kmax': 3 if q else 4}))
   total = nontriv = 0
   per = {}
   # group by function for pmap
